@@ -34,6 +34,27 @@ def parseBulks : Nat → Bytes → Option (List Bytes × Bytes)
       let (xs, r') ← parseBulks k r
       pure (x :: xs, r')
 
+/-- does reading `k` array elements meet one that is complete so far but not a bulk string? -/
+def bulksMeetNonBulk : Nat → Bytes → Bool
+  | 0, _ => false
+  | k + 1, bs =>
+    match bs with
+    | [] => false
+    | 36 :: _ =>
+      match parseBulk bs with
+      | some (_, r) => bulksMeetNonBulk k r
+      | none => false
+    | _ => true
+
+/-- an array header followed by elements among which a non-bulk element is reached -/
+def hasNonBulkElement (bs : Bytes) : Bool :=
+  match bs with
+  | 42 :: r =>
+    match splitCrlf r with
+    | none => false
+    | some (line, rest) => if !allDigits line then false else bulksMeetNonBulk (digitsVal line) rest
+  | _ => false
+
 /-- a complete command `*n\r\n` followed by n bulk strings, and the bytes after it -/
 def parseCommand (bs : Bytes) : Option (List Bytes × Bytes) :=
   match bs with
